@@ -1935,6 +1935,16 @@ func (c *Cache) additionalAnswer(ctx context.Context, msg *dns.Msg) *dns.Msg {
 		if slices.Contains(targets, target) {
 			return dnsutil.SetRcode(msg, dns.RcodeServerFailure, false)
 		}
+		// Each hop below re-enters this function through the internal
+		// pipeline, ten hops a level, and a level only sees its own
+		// targets: an alias loop longer than that is never recognised as
+		// one and the levels multiply. The request's deadline is the one
+		// thing every level shares — stop chasing once it has passed, or a
+		// thirty-name loop keeps an unmetered resolver busy for minutes
+		// after the client was due its answer.
+		if contextutil.EffectiveError(ctx) != nil {
+			return dnsutil.SetRcode(msg, dns.RcodeServerFailure, false)
+		}
 
 		targets = append(targets, target)
 
